@@ -1536,6 +1536,9 @@ impl Engine for StorEngine {
     if prop == "C04" && !ctx::has_violation() && ctx::choose(16) == 0 {
       custom_method_data_with_property();
     }
+    if prop == "C04" && !ctx::has_violation() && ctx::choose(16) == 0 {
+      property_named_like_a_member();
+    }
   }
 }
 
@@ -1558,6 +1561,41 @@ fn custom_method_data_with_property() {
     .and_then(|back| if back == doc { Ok(()) } else { Err("JSON round trip yields a different document".to_owned()) });
   if let Err(e) = r {
     ctx::violation("C04", "C04.round_trip", "custom-method-data-with-additional-property", format!("method with custom method data and one more property: {e}"));
+  }
+}
+
+/// Custom properties are set through unchecked accessors. A property that carries the NAME of one of the entry's own
+/// members (a service property `type`, a method property `publicKeyMultibase`, a document property `service`) is
+/// accepted by the checked mutators, and the document then serialises with two members of one name.
+fn property_named_like_a_member() {
+  let did = "did:sim:urlids";
+  let mut doc = CoreDocument::builder(Default::default()).id(CoreDID::parse(did).unwrap()).build().expect("empty doc");
+  let what = match ctx::choose(2) {
+    0 => {
+      let Ok(mut svc) = Service::from_json_value(serde_json::json!({"id": format!("{did}#s1"), "type": "SimService", "serviceEndpoint": "https://sim.example/s1"})) else { return };
+      svc.properties_mut().insert(["type", "id", "serviceEndpoint"][ctx::choose(3)].to_owned(), Value::from("x"));
+      if doc.insert_service(svc).is_err() {
+        return;
+      }
+      "service"
+    }
+    _ => {
+      let mut m = harness_method(did, "k1", 0);
+      m.properties_mut().insert(["publicKeyMultibase", "controller", "type"][ctx::choose(3)].to_owned(), Value::from("zQmFoo"));
+      if doc.insert_method(m, to_scope(None)).is_err() {
+        return;
+      }
+      "method"
+    }
+  };
+  ctx::stat("probe.property_named_like_a_member");
+  let r = doc
+    .to_json()
+    .map_err(|e| e.to_string())
+    .and_then(|j| CoreDocument::from_json(&j).map_err(|e| format!("own JSON rejected: {e}")))
+    .and_then(|back| if back == doc { Ok(()) } else { Err("JSON round trip yields a different document".to_owned()) });
+  if let Err(e) = r {
+    ctx::violation("C04", "C04.round_trip", "property-named-like-a-member-of-the-entry", format!("{what} with a custom property named like one of its own members: {e}"));
   }
 }
 
